@@ -1,6 +1,16 @@
 /* Field-wise dump of struct assemblyline, compiled against the repository's own header so that it
  * follows layout changes (DESIGN 4.1b).  Kept in its own translation unit: enums.h declares an
  * enumerator `setns` that clashes with glibc's setns() once <sched.h> is visible. */
+#ifdef HX_NO_STATE_DUMP
+/* fallback used when the field names below no longer exist in the tree (an internal refactoring): the dump is only an
+ * additional deduplication key of C12's BFS, never an oracle, so the executor must still build */
+#include <stdio.h>
+#include <string.h>
+void hx_state_dump(void *al, char *out, size_t cap) {
+  (void)al;
+  snprintf(out, cap, "unavailable");
+}
+#else
 #include "instruction_data.h"
 #include <stdio.h>
 #include <string.h>
@@ -10,3 +20,4 @@ void hx_state_dump(struct assemblyline *al, char *out, size_t cap) {
            (int)al->external, (int)al->assembly_mode, (unsigned)al->assembly_opt, (int)al->debug,
            (int)al->finalized);
 }
+#endif
